@@ -566,7 +566,14 @@ class Zeroconf(QuietLogger):
                     raise NonUniqueNameException
 
                 # change the name and look for a conflict
+                server_is_name = info.server_key == info.key
                 info.name = f'{instance_name}-{next_instance_number}.{info.type}'
+                if server_is_name:
+                    # The server was left at its default, the name of the service.
+                    # It has to follow the rename or the address records would be
+                    # announced under the name that belongs to someone else.
+                    info.server = info.name
+                    info.server_key = info.key
                 next_instance_number += 1
                 service_type_name(info.name, strict=strict)
                 next_time = now
